@@ -74,13 +74,16 @@ def r09_2(ctx: Ctx) -> None:
                   "an unselected member is skipped without being registered as None: the folder writer cannot tell it from a member to deliver / skip-decode")
     # the two arms
     tests = [n for n in walk(lp) if isinstance(n, ast.If) and any(isinstance(x, ast.Continue) for x in n.body)]
-    exact = [t for t in tests if isinstance(t.test, ast.Compare) and isinstance(t.test.ops[0], ast.NotIn) and norm(t.test.left).endswith(".filename") and norm(t.test.comparators[0]) == "targets"]
+    def is_member_name(e: ast.AST) -> bool:
+        return norm(e).endswith(".filename") or q.derives_from(f, e, lambda x: isinstance(x, ast.Attribute) and x.attr == "filename")
+
+    exact = [t for t in tests if isinstance(t.test, ast.Compare) and isinstance(t.test.ops[0], ast.NotIn) and is_member_name(t.test.left) and norm(t.test.comparators[0]) == "targets"]
     ctx.check(len(exact) >= 1, "R09.2", f, lp, "non-recursive arm: skip iff name not in targets", "the non-recursive filter is not `filename not in targets`", construct="exact filter arm")
     rec = [t for t in tests if isinstance(t.test, ast.BoolOp) and isinstance(t.test.op, ast.And)]
     ok = False
     for t in rec:
         a = [norm(v) for v in t.test.values]
-        has_exact = any(v.endswith(".filename not in targets") for v in a)
+        has_exact = any(isinstance(v, ast.Compare) and isinstance(v.ops[0], ast.NotIn) and is_member_name(v.left) and norm(v.comparators[0]) == "targets" for v in t.test.values)
         has_prefix = any(isinstance(v, ast.UnaryOp) and isinstance(v.op, ast.Not) and any(isinstance(c, ast.Call) and attr_tail(c) == "startswith" for c in ast.walk(v))
                          and any(isinstance(c, ast.Call) and dotted(c.func) == "any" for c in ast.walk(v)) for v in t.test.values)
         ok = ok or (has_exact and has_prefix)
@@ -291,7 +294,58 @@ def r09_5(ctx: Ctx) -> None:
         ctx.check(ok, "R09.5", es, m, "parent directories created only for members with an output", "parent directories are created for members without an output")
 
 
+def r09_8(ctx: Ctx) -> None:
+    """target matching in _extract: (a) 'beneath a named directory' is a path-component relation: the recursive arm tests
+    `name.startswith(target + "/")`, never a bare string prefix (target 'al' must not select 'alphabet.txt'; names in T that are not in
+    the archive are ignored); (b) extract() strips the trailing slash of every target, so the member name is normalised by the same
+    function before it is compared (a directory stored as 'logs/' is selectable by 'logs' and by 'logs/')."""
+    ex = shared.szf(ctx, "_extract")
+    pub = shared.szf(ctx, "extract")
+    n_sw = 0
+    for c in q.calls(ex):
+        if attr_tail(c) != "startswith" or not c.args:
+            continue
+        # only prefix tests against an element of `targets`
+        comp = None
+        for n in walk(ex.node):
+            if isinstance(n, (ast.ListComp, ast.GeneratorExp, ast.SetComp)) and any(x is c for x in ast.walk(n.elt)) and "targets" in norm(n.generators[0].iter):
+                comp = n
+        lp = [l for l in q.enclosing_loops(ex, c) if isinstance(l, ast.For) and "targets" in norm(l.iter)]
+        if comp is None and not lp:
+            continue
+        n_sw += 1
+        tv = comp.generators[0].target if comp is not None else lp[-1].target
+        arg = c.args[0]
+        bounded = False
+        if isinstance(arg, ast.BinOp) and isinstance(arg.op, ast.Add) and isinstance(arg.right, ast.Constant) and arg.right.value in ("/", os_sep_text()):
+            bounded = True
+        if isinstance(arg, ast.JoinedStr) and arg.values and isinstance(arg.values[-1], ast.Constant) and str(arg.values[-1].value).endswith("/"):
+            bounded = True
+        if isinstance(arg, ast.Call) and attr_tail(arg) == "join" and any(isinstance(a, ast.Constant) and a.value == "" for a in arg.args):
+            bounded = True
+        ctx.check(bounded, "R09.8", ex, c, "recursive selection tests a '/'-bounded prefix",
+                  f"`{norm(c)}` takes a bare string prefix of the member name as 'beneath the target' (`{norm(tv)}` without a separator): targets 'al' or 'b' select "
+                  "'alphabet.txt' / 'beta.bin', and a name in T that is not in the archive is not ignored", construct="recursive prefix test")
+    ctx.floor("R09.8", n_sw, 1, "prefix tests against targets in _extract (recursive arm)")
+    strips = [c for c in q.calls(pub) if attr_tail(c) == "remove_trailing_slash"]
+    if strips:
+        tests = [n for n in walk(ex.node) if isinstance(n, ast.Compare) and len(n.ops) == 1 and isinstance(n.ops[0], (ast.In, ast.NotIn)) and norm(n.comparators[0]) == "targets"]
+        ctx.floor("R09.8", len(tests), 2, "membership tests against targets in _extract")
+        for t in tests:
+            ok = q.derives_from(ex, t.left, lambda e: isinstance(e, ast.Call) and attr_tail(e) == "remove_trailing_slash")
+            ctx.check(ok, "R09.8", ex, t, "member name normalised like the targets before the membership test",
+                      f"`{norm(t)}` compares the member name as stored with targets whose trailing '/' extract() has removed: a directory member stored as 'logs/' can be "
+                      "selected neither by 'logs/' nor by 'logs', and extract(targets=set(namelist())) differs from extractall()", construct=f"membership {norm(t.left)}")
+    else:
+        ctx.note("R09.8: extract() does not strip trailing slashes from targets; no normalisation to mirror")
+
+
+def os_sep_text() -> str:
+    return "/"
+
+
 def run(ctx: Ctx) -> None:
+    r09_8(ctx)
     from . import c06 as _c06x
     _c06x.dispatch_forwards_skip(ctx, "R09.7")
     from . import c06 as _c06
